@@ -2,19 +2,20 @@
 import os
 
 # which repairs the tree under test is expected to contain: "<fixes/C12-F1.diff> <fixes/C12-F4.diff>" (Coq booleans).
-# Default = /repo as it is; VERIF_C12_FX="true true" runs the check against a tree with both diffs applied.
-_FX = os.environ.get("VERIF_C12_FX", "false false")
+# Default = /repo as it is (C12-F4 repaired by ed62adc, C12-F1 open); VERIF_C12_FX="true true" runs the check against a tree
+# with fixes/C12-F1.diff applied as well, "false false" expects the tree before ed62adc.
+_FX = os.environ.get("VERIF_C12_FX", "false true")
 
 P = {
     "id": "C12",
     "coq_targets": ["Properties/C12.vo", "Run/Eval_C12.vo"],
     "theorems_module": "Properties.C12",
-    "theorems": ["C12_errors_is_as_leaves", "C12_kind_table", "C12_same_status", "C12_translators_meet_spec", "C12_F2_refuted",
+    "theorems": ["C12_errors_is_as_leaves", "C12_kind_table", "C12_same_status", "C12_translators_meet_spec", "C12_F2_refuted", "C12_F5_refuted",
                  "C12_never_success", "C12_never_success_stack", "C12_success_override_possible",
                  "C12_body_only_if_verbose", "C12_redirect_has_location",
-                 "C12_entry_points_meet_spec", "C12_entry_points_inside_guards", "C12_handlers_never_swallow",
+                 "C12_entry_points_meet_spec", "C12_entry_points_meet_spec_as_is", "C12_entry_points_inside_guards", "C12_handlers_never_swallow",
                  "C12_www_authenticate_challenge", "C12_redirect_handler_code_is_3xx",
-                 "C12_F1_refuted", "C12_F1_header_never_written", "C12_F4_refuted",
+                 "C12_F1_refuted", "C12_F1_header_never_written", "C12_F4_pinned_refuted",
                  "C12_stack_extends_model", "C12_eval_sound", "C12_nonvacuous", "C12_nonvacuous_entry"],
     "streams": [{
         "name": "translate", "pkg": "./internal/zzverif/c12", "test": "TestVerifC12",
@@ -26,16 +27,24 @@ P = {
             "internal/handler/envoyextauth/grpcv3/zz_verif_export.go": "export/grpcv3_export.go",
         },
         "eval_module": "Run.Eval_C12", "check_term": "check (mkfx %s)" % _FX,
-        "n_quick": 1500, "n_thorough": 40000, "findings": {1: "C12-F1", 2: "C12-F2", 4: "C12-F4"}, "shard": 200,
+        "n_quick": 1500, "n_thorough": 20000, "findings": {1: "C12-F1", 2: "C12-F2", 5: "C12-F5"}, "shard": 200,
     }],
-    "rule": "respond configuration (verbose, six override codes incl. 0, 1xx/2xx, negative and >999) x Accept header (absent, "
-            "wildcards, q-values, malformed) x error tree of depth <= 6, fan-out <= 4 built from real values (8 heimdall sentinels, "
-            "other sentinels, *RedirectError, a real *cellib.EvalError, four foreign leaf types, fmt.Errorf %w / custom Unwrap, "
-            "errors.Join / multi-%w / custom Unwrap() []error, errorchain.ErrorChain with and without (adversarial) context) x "
-            "scenario (error returned by the executor | handled by a REAL default/redirect (fixed or request-dependent target rendering nothing / blanks / a URL)/www_authenticate mechanism | panic with "
-            "error or string value); observed: errors.Is for 10 targets, errors.As, both real translators, the three real service "
-            "stacks, what the mechanism hands to ctx.AddHeaderForUpstream; non-trivial = the tree mixes >= 2 leaf kinds below a wrapper, or the scenario is not a plain error; "
-            "distinct by hash of the generated input",
+    "rule": "respond configuration (verbose, six override codes incl. 0, 1xx/2xx, negative and >999; 12 % written to a configuration file "
+            "under the documented names and loaded by config.NewConfiguration, else put into the struct) x request (method GET/POST/HEAD/OPTIONS/"
+            "PUT/DELETE/PATCH/PROPFIND, 8 paths, 4 peers incl. loopback, 0-2 extra headers, no / one / two Accept lines: wildcards, q-values, "
+            "malformed, nothing acceptable) x error tree of depth <= 6, fan-out <= 4 built from real values (8 heimdall sentinels, other "
+            "sentinels, *RedirectError incl. odd codes, a real *cellib.EvalError, 12 foreign leaf flavours incl. context.Canceled / "
+            "DeadlineExceeded, io.EOF, syscall.ENOENT, *url.Error, *net.OpError, a type with HTTPStatus()/Timeout()/own Is, a struct with "
+            "Code/StatusCode fields; fmt.Errorf %w / custom Unwrap, errors.Join / multi-%w / custom Unwrap() []error, errorchain.ErrorChain with "
+            "4 kinds of (adversarial) contexts) x scenario (error returned by the executor | a REAL ruleImpl whose authenticator fails and whose "
+            "error_handler list has 1-3 entries: real conditionalErrorHandler (no if / CEL true / CEL false) around REAL default / redirect "
+            "(fixed or request-dependent target rendering nothing / blanks / a URL, or failing to render) / www_authenticate mechanisms after "
+            "WithConfig(nil | {} | {realm}) | panic with error or string value | proxy only: no upstream, upstream closes the connection, "
+            "upstream stalls past the read timeout); observed: errors.Is for the classes of the switch, errors.As, both real translators, the "
+            "three real service stacks (status, Location, WWW-Authenticate, Content-Type, body, well-formedness, and whether any text of the "
+            "failure shows in the body, ANY header value or the gRPC status message), what the mechanisms hand to "
+            "ctx.AddHeaderForUpstream(WWW-Authenticate), a redirect handler creation probe; non-trivial = the tree mixes >= 2 leaf kinds below "
+            "a wrapper, or the failure goes through a handler list, a panic or the proxy's Finalize; distinct by hash of the generated input",
     "anchors": ["internal/handler/middleware/http/errorhandler/error_handler.go",
                 "internal/handler/middleware/http/errorhandler/options.go",
                 "internal/handler/middleware/http/errorhandler/defaults.go",
@@ -54,36 +63,60 @@ P = {
                 "internal/handler/envoyextauth/grpcv3/service.go", "internal/handler/envoyextauth/grpcv3/handler.go",
                 "internal/handler/envoyextauth/grpcv3/request_context.go",
                 "internal/handler/middleware/http/recovery/handler.go", "internal/handler/service/handler.go"],
-    "trusted": ["content negotiation (elnormous/contenttype) is an oracle: its answer for the case's Accept header against each "
-                "translator's media type list (the driver's copy of the two lists, in the translators' order) is data of the case",
+    "trusted": ["content negotiation (elnormous/contenttype) is an oracle in two roles: (model) the type the real translator itself negotiates "
+                "for the request, observed on a verbose probe failure through the public API (so a server-side order of preference is not "
+                "part of the model); (specification) what the Accept header admits = the most preferred acceptable types by pairwise calls "
+                "of the library on 2-element lists (all acceptable ones when there are two Accept lines; no constraint for an absent, empty "
+                "or malformed header or when none of the types is acceptable — the gRPC text/html fallback is pinned by heimdall's own "
+                "unit test and not counted against the statement)",
                 "body rendering (goccy/go-json, encoding/xml, Error()) is an oracle: only 'rendered body non-empty' per media type, "
-                "observed on the very error value",
-                "Go's errors.Is/errors.As are modelled (Base/ErrChain.v) and compared with the real functions on every generated tree",
-                "net/http below the ResponseWriter: observed on httptest.ResponseRecorder; a panic that escapes the recovery "
-                "middleware is observed as a panic of Handler.ServeHTTP (a real server drops the connection)",
-                "whether a body is well-formed for its Content-Type is judged by the driver (stacks.WellFormed: json.Valid, encoding/xml "
-                "tokeniser, <p>..</p>, anything for text/plain)",
-                "shared driver helper harness/stacks (request construction, in-memory gRPC listener, canonicalisation of responses)"],
-    "level_text": "Proof (kernel-checked, no axioms) over error values of arbitrary shape and nesting that both error translators "
-                  "compute the same class by the precedence authentication > authorization > communication/timeout > precondition > "
-                  "no rule > redirect > internal, answer with that kind's status or override (401/403/502/400/404/redirect code/500), "
-                  "agree with each other outside finding C12-F2, never answer with a 1xx/2xx status or gRPC OK when no override/redirect "
-                  "code is one, put details in the body only when verbose and in the negotiated type, give redirects their Location, "
-                  "and that no error handler mechanism or panic leads to a positive answer on any entry point; the model is tied to the "
-                  "code by running errors.Is/As, both real translators and the three complete real service stacks (real error handler "
-                  "mechanisms) on ~1500 (quick) / 40000 (thorough) generated error trees x configurations per run.",
-    "level_note": "Trusted: Coq kernel/vm_compute; the correspondence harness; content negotiation and body rendering are oracles "
-                  "(observed answers of the real libraries on the case's inputs). Hypotheses of never-success are explicit: no status "
-                  "override and no redirect code in 100..299 (the configuration schema and the redirect handler factory accept any "
-                  "integer, see C12_success_override_possible). Open findings: C12-F1 (www_authenticate answers carry no "
-                  "WWW-Authenticate header; the header theorem is proved outside its guard, C12_F1_refuted/C12_F1_header_never_written "
-                  "document it; a candidate repair is in fixes/C12-F1.diff, the model is parametric in it: "
-                  "C12_www_authenticate_has_header_fixed holds without guard for the repaired variant), C12-F2 (codes outside 100..999 split HTTP and gRPC). C12-F3 (different media type preference orders of "
-                  "the two translators) is reported in the input histogram only.",
+                "observed on the very error value; errors heimdall creates itself on these paths are assumed to render non-empty",
+                "'error details' are recognised by the driver as: a message of a leaf / chain / context of the case's error tree or one of "
+                "heimdall's own failure texts (>= 5 characters, 'internal error' excluded) occurring in the body, a header value or the "
+                "gRPC status message",
+                "whether a body is well-formed for its Content-Type is judged by the driver (json.Valid, encoding/xml tokeniser with a root "
+                "element; anything for text/html, text/plain and unknown types; a body without Content-Type is ill-formed)",
+                "Go's errors.Is/errors.As are modelled (Base/ErrChain.v) and compared with the real functions on every generated tree, "
+                "for the six questions the translators ask",
+                "net/http below the ResponseWriter: observed on httptest.ResponseRecorder (headers as of WriteHeader); a panic that escapes "
+                "the recovery middleware is observed as a panic of Handler.ServeHTTP (a real server drops the connection)",
+                "harness/c12/rules_export.go builds the ruleImpl / compositeErrorHandler / conditionalErrorHandler values the way "
+                "rule_factory_impl.go createOnErrorPipeline does (the factory itself is C01/C14/C19 material)"],
+    "level_text": "Proof (kernel-checked, no axioms) against a specification that uses no model function (C12/Spec.v): for error values of "
+                  "arbitrary shape and nesting, all override codes, verbose on/off, every Accept view, every list of conditional default / "
+                  "redirect / www_authenticate error handlers with rule-level configuration, panics, the proxy's own Finalize failures and "
+                  "both configuration sources, every answer of the decision service, the proxy service and the Envoy gRPC service is the "
+                  "response of the failure's kind by the precedence authentication > authorization > communication/timeout > precondition "
+                  "> no rule > redirect > internal (401/403/502/400/404/redirect code + Location/500 or the kind's override), identical on "
+                  "the three entry points, never a 1xx/2xx status or gRPC OK when no override/redirect code is one, with details only when "
+                  "verbose, in a type the Accept header admits, and (with the repair of C12-F1) a WWW-Authenticate header naming the "
+                  "configured realm — outside the guards of C12-F1/F2/F5, and INSIDE them every clause but the one the finding breaks "
+                  "(C12_entry_points_inside_guards); the evaluator of the correspondence run is proved sound for these theorems "
+                  "(C12_eval_sound). The model is tied to the code by running errors.Is/As, both real translators and the three complete "
+                  "real service stacks around a real rule with real error handler mechanisms on ~1500 (quick) / 20000 (thorough) generated "
+                  "cases per run; the property predicate of the run is the specification applied to the implementation's observations.",
+    "level_note": "Trusted: Coq kernel/vm_compute; the correspondence harness; content negotiation, body rendering, detail recognition and "
+                  "well-formedness are oracles (observed answers of the real libraries / driver judgements on the case's inputs). Hypotheses "
+                  "of never-success are explicit: no status override and no redirect code in 100..299 (the configuration accepts any integer "
+                  "and heimdall's own unit tests configure 100 Continue: 'or the status configured for that kind' is the operator's choice, "
+                  "see C12_success_override_possible; the redirect handler factory restricts codes to 300..399 since 6c5864d). Open findings: "
+                  "C12-F1 (www_authenticate answers carry no WWW-Authenticate header; candidate repair fixes/C12-F1.diff, the model is "
+                  "parametric in it and VERIF_C12_FX='true true' runs the check against a repaired tree), C12-F2 (overrides outside 100..999 "
+                  "split HTTP and gRPC; expected behaviour defined: such an override is ignored, so a repair shows as 'finding not "
+                  "reproduced'), C12-F5 (hand-built RedirectError values with such codes, unreachable from heimdall's mechanisms). Fixed: "
+                  "C12-F4 (ed62adc, precondition_error override from a configuration file; pinned behaviour kept as "
+                  "C12_F4_pinned_refuted). C12-F3 (different media type preference orders of the two translators, gRPC text/html "
+                  "fallback) is not a finding: reported in the input histogram only. Not covered: http.Server-level behaviour (HEAD body "
+                  "stripping, informational responses), message texts and body contents beyond emptiness / well-formedness / detail tokens, "
+                  "conditions that themselves fail, typed-nil and empty-chain error values.",
     "assumptions": ["status codes fit in int32 (envoy's StatusCode); 1xx overrides are observed on httptest.ResponseRecorder (a real "
                     "net/http server would send them as informational responses followed by an implicit 200, which is why the "
                     "never-success hypothesis excludes 100..299, not only 2xx)",
-                    "error values are finite trees of the modelled shapes; typed-nil *RedirectError values, nil chain elements and "
-                    "foreign types with their own Is/As methods are outside the model (none is produced by heimdall's code)",
-                    "never-success is conditional: overrides and redirect codes outside 100..299"],
+                    "error values are finite trees of the modelled shapes; typed-nil *RedirectError values, nil chain elements, foreign "
+                    "types whose Is/As methods answer for heimdall's sentinels, and the zero-value &errorchain.ErrorChain{} under verbose "
+                    "responses (its MarshalJSON dereferences the nil head; it cannot be built through the package's API) are outside the "
+                    "model (none is produced by heimdall's code)",
+                    "never-success is conditional: overrides and redirect codes outside 100..299",
+                    "a rule-level `config` of a redirect or default error handler is empty (anything else is rejected when the rule is loaded); "
+                    "`if` conditions evaluate to true or false (a condition that fails is C01 material)"],
 }
